@@ -1,9 +1,86 @@
 import RegexVerif.Sexp
+import RegexVerif.Model.Replace
 
 namespace RegexVerif.Driver
-open RegexVerif Sexp
+open RegexVerif Sexp RegexVerif.Replace
 
-/-- protocol lines with head `c09` (stub) -/
-def handleC09 (_args : List Sexp) : String := "(unimplemented)"
+namespace C09
+
+def group? : Sexp → Option (Option (Nat × Nat))
+  | .atom _ => some none
+  | .list [a, b] => match a.nat?, b.nat? with
+    | some i, some l => some (some (i, l))
+    | _, _ => none
+  | _ => none
+
+def match? : Sexp → Option Match
+  | .list (i :: l :: gs) =>
+    match i.nat?, l.nat?, gs.mapM group? with
+    | some i, some l, some gs => some ⟨i, l, gs⟩
+    | _, _, _ => none
+  | _ => none
+
+def pair? : Sexp → Option (Nat × Nat)
+  | .list [a, b] => match a.nat?, b.nat? with
+    | some i, some l => some (i, l)
+    | _, _ => none
+  | _ => none
+
+def name? : Sexp → Option (List Nat × Nat)
+  | .list [a, b] => match a.nats?, b.nat? with
+    | some n, some k => some (n, k)
+    | _, _ => none
+  | _ => none
+
+def resNats : Res (List Nat) → List Sexp
+  | .ok s => [.atom "ok", ofNats s]
+  | .err => [.atom "err"]
+  | .panic => [.atom "panic"]
+
+def resLists : Res (List (List Nat)) → List Sexp
+  | .ok ps => [.atom "ok", .list (ps.map ofNats)]
+  | .err => [.atom "err"]
+  | .panic => [.atom "panic"]
+
+end C09
+
+open C09 in
+/-- `(c09 (text …) (rms M…) (sms M…) (rep …) (caps nil | (n s)…) (capsize k) (names ((name…) num)…)
+     (word (…)) (ecma b) (count c) (rtl b))` with `M = (index len G…)`, `G = (i l) | u`.
+    Answer: the parsed replacement (rules, strings), validity of both sequences, and the results of
+    the Replace / ReplaceFunc / Split models. -/
+def handleC09 (args : List Sexp) : String :=
+  let field (k : String) : Option (List Sexp) := lookup k args
+  let r : Option String := do
+    let text ← (← field "text").head? >>= (·.nats?)
+    let rms ← (← field "rms").mapM match?
+    let sms ← (← field "sms").mapM match?
+    let rep ← (← field "rep").head? >>= (·.nats?)
+    let capsArgs ← field "caps"
+    let caps : Option (List (Nat × Nat)) ←
+      (match capsArgs with
+       | [.atom _] => some none
+       | l => (l.mapM pair?).map some)
+    let capsize ← (← field "capsize").head? >>= (·.nat?)
+    let names ← (← field "names").mapM name?
+    let word ← (← field "word").head? >>= (·.nats?)
+    let ecma ← (← field "ecma").head? >>= (·.bool?)
+    let count ← (← field "count").head? >>= (·.int?)
+    let rtl ← (← field "rtl").head? >>= (·.bool?)
+    let env : Env := ⟨caps, capsize, names, ecma⟩
+    let isWord := fun c => word.contains c
+    let validS := mk "valid" [ofBool (valid rtl text rms), ofBool (valid rtl text sms), ofBool (envOk env)]
+    let splitS := mk "split" (resLists (split text sms count rtl))
+    match newReplacerData isWord env rep with
+    | .error e =>
+      let es := match e with | .overflow => "overflow" | .unmodelled => "unmodelled"
+      pure (toString (mk "ans" [mk "parse" [.atom es], validS, splitS]))
+    | .ok d =>
+      let pieces := d.pieces
+      let parseS := mk "parse" [.atom "ok", mk "rules" (d.rules.map ofInt), mk "strings" (d.strings.map ofNats)]
+      let replS := mk "replace" (resNats (replace text rms pieces count rtl))
+      let funcS := mk "func" (resNats (replaceFunc text rms (expand pieces text) count rtl))
+      pure (toString (mk "ans" [parseS, validS, replS, funcS, splitS]))
+  r.getD "(bad-op)"
 
 end RegexVerif.Driver
